@@ -20,6 +20,7 @@ import (
 	"sync"
 	"testing"
 
+	fpgo "github.com/TeaEntityLab/fpGo/v2"
 	network "github.com/TeaEntityLab/fpGo/v2/network"
 	"pgregory.net/rapid"
 
@@ -201,6 +202,24 @@ type apiCase struct {
 	// Ambiguous: a supplied value (or stray brace) forms another supplied {key} token; the expected
 	// URL is the single-pass substitution of the TEMPLATE's placeholders (values are not rescanned)
 	Ambiguous bool `json:"ambiguous,omitempty"`
+	// Via: how the returned MonadIO is evaluated: 0 Eval(), 1 composed first (FlatMap into Just; composing is
+	// not evaluating: nothing may be sent by it) and the composition is evaluated, 2 Subscribe (no handlers)
+	Via int `json:"via,omitempty"`
+}
+
+func wrapEval[R any](c *apiCase, m *fpgo.MonadIODef[*network.APIResponse[R]]) func() *network.APIResponse[R] {
+	switch c.Via {
+	case 1:
+		return m.FlatMap(func(r *network.APIResponse[R]) *fpgo.MonadIODef[*network.APIResponse[R]] {
+			return fpgo.MonadIOJustGenerics(r)
+		}).Eval
+	case 2:
+		return func() (out *network.APIResponse[R]) {
+			m.Subscribe(fpgo.Subscription[*network.APIResponse[R]]{OnNext: func(r *network.APIResponse[R]) { out = r }})
+			return
+		}
+	}
+	return m.Eval
 }
 
 func (c *apiCase) String() string { b, _ := json.Marshal(c); return string(b) }
@@ -610,37 +629,37 @@ func runCase[R any](c *apiCase, rk rKind[R]) (res result) {
 		switch c.Ctor {
 		case cGet:
 			m := network.APIMakeGet[R](api, c.Template)(pp, target)
-			eval = m.Eval
+			eval = wrapEval(c, m)
 		case cDelete:
 			m := network.APIMakeDelete[R](api, c.Template)(pp, target)
-			eval = m.Eval
+			eval = wrapEval(c, m)
 		case cPostJSON:
 			m := network.APIMakePostJSONBody[interface{}, R](api, c.Template)(pp, body, target)
-			eval = m.Eval
+			eval = wrapEval(c, m)
 		case cPutJSON:
 			m := network.APIMakePutJSONBody[interface{}, R](api, c.Template)(pp, body, target)
-			eval = m.Eval
+			eval = wrapEval(c, m)
 		case cPatchJSON:
 			m := network.APIMakePatchJSONBody[interface{}, R](api, c.Template)(pp, body, target)
-			eval = m.Eval
+			eval = wrapEval(c, m)
 		case cPostMP:
 			m := network.APIMakePostMultipartBody[R](api, c.Template)(pp, form, target)
-			eval = m.Eval
+			eval = wrapEval(c, m)
 		case cPutMP:
 			m := network.APIMakePutMultipartBody[R](api, c.Template)(pp, form, target)
-			eval = m.Eval
+			eval = wrapEval(c, m)
 		case cPatchMP:
 			m := network.APIMakePatchMultipartBody[R](api, c.Template)(pp, form, target)
-			eval = m.Eval
+			eval = wrapEval(c, m)
 		case cGenNoBody:
 			m := network.APIMakeDoNewRequest[R](api, c.Method, c.Template)(pp, target)
-			eval = m.Eval
+			eval = wrapEval(c, m)
 		case cGenBody:
 			m := network.APIMakeDoNewRequestWithBodySerializer[interface{}, R](api, c.Method, c.Template, c.CT, bodySer)(pp, body, target)
-			eval = m.Eval
+			eval = wrapEval(c, m)
 		case cGenMP:
 			m := network.APIMakeDoNewRequestWithMultipartSerializer[R](api, c.Method, c.Template, mpSer)(pp, form, target)
-			eval = m.Eval
+			eval = wrapEval(c, m)
 		}
 	}); p != nil {
 		res.fail("C17/panic:"+panicSite(stack)+":construct", "%s: panic while building the API call: %v\n%s", ctorNames[c.Ctor], p, firstFrames(stack))
@@ -1177,6 +1196,7 @@ func genCase(t *rapid.T) *apiCase {
 	c.Ser = rapid.SampledFrom([]int{serDefault, serDefault, serDefault, serCustom, serFailing}).Draw(t, "ser")
 	c.Des = rapid.SampledFrom([]int{desDefault, desDefault, desDefault, desCustomFresh, desTargetErr, desNilErr}).Draw(t, "des")
 	c.RType = rapid.IntRange(0, 1).Draw(t, "rtype")
+	c.Via = rapid.SampledFrom([]int{0, 0, 1, 2}).Draw(t, "via")
 	nEval := rapid.SampledFrom([]int{0, 1, 1, 2, 2, 3}).Draw(t, "evals")
 	bodies := []string{`{"id":7,"name":"n","tags":["a","b"]}`, `{"id":3}`, `{}`, `null`, `{"id":"x"}`, `{"id":`, ``, `[1,2]`, `{"name":"ü","tags":null,"other":{"k":1}}`}
 	c.Resp = []respSpec{}
